@@ -443,3 +443,48 @@ def fwd(ctx, pid):
                         ctx.ok(cst, f.loc(c_), "`%s` is passed on as `%s`" % (p, util.norm_src(a)), nontrivial=False)
     if n < FWD_MIN[pid]:
         ctx.unsure("forward-instances:%s" % rel, rel, "only %d forwarding site(s) found, %d were confirmed by hand" % (n, FWD_MIN[pid]))
+
+
+@rule("ARGX", ["C01", "C02", "C03", "C04", "C05", "C06", "C07", "C08", "C10", "C11", "C12", "C13", "C14", "C15", "C16", "C17", "C18"])
+def argx(ctx, pid):
+    """Crossed arguments at calls inside the package: parameter `a` of the callee receives the caller's
+    variable `b`, where `b` is the name of another parameter of the same callee which in turn receives
+    something else (`_set_kv_node(node, value, trie_key)`).  Each side of such a pair contradicts the other."""
+    from ..core import prop_scope
+    scope = prop_scope(pid)
+    n = 0
+    bad = []
+    for f in util.all_functions(ctx, include_tools=False):
+        if scope is not None and f.module.rel not in scope:
+            continue
+        for c_ in ast.walk(f.node):
+            if not isinstance(c_, ast.Call):
+                continue
+            for t in ctx.R.resolve_call(c_, f, count=False):
+                if t.kind == "def":
+                    g = t.func
+                    skip = g.cls is not None and not g.is_static and (t.recv is not None or g.is_classmethod)
+                elif t.kind == "ctor" and getattr(t, "cls", None) is not None and hasattr(t.cls, "methods"):
+                    g = t.cls.methods.get("__init__") or t.cls.methods.get("__new__")
+                    skip = True
+                else:
+                    g = None
+                if g is None:
+                    continue
+                amap = ctx.E.bind_args(c_, g, skip_self=skip)
+                names = {p: (a.id if isinstance(a, ast.Name) else None) for p, a in amap.items()}
+                for p, b in names.items():
+                    n += 1
+                    if b and b != p and b in names and names.get(b) != b:
+                        bad.append((f, c_, g, p, b, amap[b]))
+    seen = set()
+    for f, c_, g, p, b, other in bad:
+        key = (f.qual, c_.lineno, frozenset((p, b)))
+        if key in seen:
+            continue
+        seen.add(key)
+        ctx.bad("crossed-arguments:%s->%s(%s)" % (fkey(f), fkey(g), p), f.loc(c_),
+                "`%s`: parameter `%s` of %s receives the caller's `%s`, while its own parameter `%s` receives `%s`"
+                % (util.norm_src(c_)[:70], p, g.name, b, b, util.norm_src(other)[:30]))
+    if not bad:
+        ctx.ok("argument-roles", "trie/", "%d argument bindings at package-internal calls in scope: no parameter receives a variable named like a sibling parameter that is bound differently" % n, nontrivial=bool(n))
